@@ -165,35 +165,51 @@ theorem endOK_names {tbl : Table} {cfg : Cfg} {st en : Tree} (h : EndOK tbl cfg 
               | true => rfl
               | false => simp [hst, hs, he] at h2
 
-/-- a successful `Program` that did not fall back to `Main_Program0` (no `fallback` event in
-this run) leaves the stream empty.  (The fall-back path does not: `program0_drops_witness`,
-`garbage_after_main0_witness`.) -/
+/-- a successful `Program` leaves the stream empty — unconditionally for the repaired
+`Program.match` (`programContinues`), and for the pinned one unless it fell back to
+`Main_Program0` (no `fallback` event in this run; the fall-back path does not consume
+everything: `program0_drops_legacy_witness`, `garbage_after_main0_legacy_witness`). -/
 theorem program_consumes_all (env : Env) (fuel : Nat) (c unit main0 : Cls) (st st' : St) (t : Tree)
     (hk : env.tbl.kind c = .program unit main0 [])
-    (h : run env (fuel + 1) c st = (.tree t, st')) (hfb : FB st' = FB st) :
+    (h : run env (fuel + 1) c st = (.tree t, st'))
+    (hfb : env.tbl.quirks.programContinues = true ∨ FB st' = FB st) :
     st'.stream.all = [] := by
   unfold run fresh at h
   simp only [Prod.mk.injEq] at h
   exact program_consumes_eval env fuel c unit main0 [] (eval env (fuel + 1) c [] st).2.1 st st' t hk
     (Prod.ext h.1 (Prod.ext rfl h.2)) hfb
 
-/-- … so an unmatched statement makes such a `Program` fail -/
+/-- … so with an unmatched statement in the input `Program(reader)` can return a tree only
+in the pinned variant, and only through the `Main_Program0` fall-back -/
 theorem unmatched_rejects_program (env : Env) (fuel : Nat) (c unit main0 : Cls) (st st' : St)
     (t : Tree) (g : Item) (pre post : List Item) (hu : Unmatched env g)
     (hb : st.stream.buf = []) (hr : st.stream.rest = pre ++ g :: post)
     (hk : env.tbl.kind c = .program unit main0 [])
-    (h : run env (fuel + 1) c st = (.tree t, st')) : FB st < FB st' := by
+    (h : run env (fuel + 1) c st = (.tree t, st')) :
+    env.tbl.quirks.programContinues = false ∧ FB st < FB st' := by
   have hm : FB st ≤ FB st' := by
     have := FB_mono (run_rel (logExt_ok env) (fuel + 1) c st); rw [h] at this; exact this
-  rcases Nat.lt_or_ge (FB st) (FB st') with hlt | hge
-  · exact hlt
-  · exfalso
-    have he := program_consumes_all env fuel c unit main0 st st' t hk h (by omega)
+  have key : ¬ (env.tbl.quirks.programContinues = true ∨ FB st' = FB st) := by
+    intro hfb
+    have he := program_consumes_all env fuel c unit main0 st st' t hk h hfb
     obtain ⟨_, pre', hp⟩ := no_read_past_unmatched env (fuel + 1) c st g pre post hu hb hr
     rw [h] at hp
     simp only at hp
     rw [he] at hp
     simp at hp
+  constructor
+  · cases hq : env.tbl.quirks.programContinues with
+    | false => rfl
+    | true => exact absurd (Or.inl hq) key
+  · rcases Nat.lt_or_ge (FB st) (FB st') with hlt | hge
+    · exact hlt
+    · exact absurd (Or.inr (by omega)) key
+
+/-- the shared-DO repair, for every table and oracle: with `seqRestores` no `seqDrop` event is
+ever logged (compare `seq_drop_witness`) -/
+theorem seq_repair_never_drops (env : Env) (hq : env.tbl.quirks.seqRestores = true) (fuel : Nat)
+    (c : Cls) (st : St) : SD (run env fuel c st).2 = SD st :=
+  run_rel (seqR_ok env hq) fuel c st
 
 /-! ## f. outcomes of `Program.__new__` -/
 
@@ -374,12 +390,24 @@ theorem sysexit_witness :
 open W in
 /-- F-C02-1 / F-C08-1: `Program.match` falls back to `Main_Program0`, the first unit is
 dropped: four items consumed, only the last two are in the tree. -/
-theorem program0_drops_witness :
+theorem program0_drops_legacy_witness :
     outKind (res {} orcDrop 0 4).1 = 0 ∧
     (match (res {} orcDrop 0 4).1 with
       | .tree t => t.frontier.map (·.id) | _ => []) = [2, 3] ∧
     (res {} orcDrop 0 4).2.stream.all = [] ∧
     D (res {} orcDrop 0 4).2 = 1 := by
+  decide
+
+open W in
+open W in
+/-- the repaired `Program.match` (`programContinues`) keeps the first unit: all four items
+are in the tree, nothing is dropped -/
+theorem program0_repaired_witness :
+    outKind (res { programContinues := true } orcDrop 0 4).1 = 0 ∧
+    (match (res { programContinues := true } orcDrop 0 4).1 with
+      | .tree t => t.frontier.map (·.id) | _ => []) = [0, 1, 2, 3] ∧
+    (res { programContinues := true } orcDrop 0 4).2.stream.all = [] ∧
+    D (res { programContinues := true } orcDrop 0 4).2 = 0 := by
   decide
 
 open W in
@@ -402,7 +430,7 @@ theorem seq_repaired_witness :
 open W in
 /-- F-C08-1: `i = 1 / end / @@garbage`: the fall-back accepts the program and never looks at
 the third line (`fallback` event, no drop event) -/
-theorem garbage_after_main0_witness :
+theorem garbage_after_main0_legacy_witness :
     outKind (res {} (fun i c => match i, c with
         | 0, 5 => ans (.matched stmtInfo) | 1, 4 => ans (.matched (endInfo none))
         | _, _ => ans .none) 0 3).1 = 0 ∧
@@ -412,6 +440,14 @@ theorem garbage_after_main0_witness :
     FB (res {} (fun i c => match i, c with
         | 0, 5 => ans (.matched stmtInfo) | 1, 4 => ans (.matched (endInfo none))
         | _, _ => ans .none) 0 3).2 = 1 := by
+  decide
+
+open W in
+/-- … and `i = 1 / end / garbage` is rejected by the repaired variant -/
+theorem garbage_after_main0_repaired_witness :
+    outKind (res { programContinues := true } (fun i c => match i, c with
+        | 0, 5 => ans (.matched stmtInfo) | 1, 4 => ans (.matched (endInfo none))
+        | _, _ => ans .none) 0 3).1 = 3 := by
   decide
 
 namespace W
